@@ -14,7 +14,7 @@ HARNESS = r"""
 use std::ffi::OsStr;
 use std::path::Path;
 // ======== real text: condition of the `if` that guards remove_file in clean_command (`path.file_name()` -> parameter) ========
-pub fn pred(verif_entry_name: &OsStr) -> bool {
+pub fn pred(verif_entry_name: &OsStr, verif_is_dir: bool) -> bool {
     PRED
 }
 
@@ -42,7 +42,9 @@ mod verif {
             Some(d) if d > 0 => len - d - 1 == 3 && bytes[d + 1] == b'm' && bytes[d + 2] == b'm' && bytes[d + 3] == b'm',
             _ => false,
         };
-        assert!(pred(name) == expect, "C20.filter: the file is selected for deletion iff its extension is exactly `mmm`");
+        // "never deletes ... any directory": a directory is never selected, whatever it is called (remove_file on it fails and aborts the clean)
+        let is_dir: bool = kani::any();
+        assert!(pred(name, is_dir) == (expect && !is_dir), "C20.filter: an entry is selected for deletion iff it is not a directory and its extension is exactly `mmm`");
     }
 }
 """
@@ -112,6 +114,9 @@ class CleanUnit:
         prefix = Rule("Kt", f"let {var} = {var} ? ;", "", why="unwrapping of the directory entry dropped (the predicate takes its name)").apply(list(prefix), log)
         pre2 = Rule("Kt", f"{var} . file_name ( )", "verif_entry_name", why="directory entry's file name -> parameter").apply(prefix, log)
         cond2 = Rule("Kt", f"{var} . file_name ( )", "verif_entry_name", why="directory entry's file name -> parameter").apply(list(cond), log)
+        for form in (f"{var} . file_type ( ) ? . is_dir ( )", f"{var} . path ( ) . is_dir ( )", f"{var} . metadata ( ) ? . is_dir ( )"):
+            pre2 = Rule("Kt", form, "verif_is_dir", why="whether the directory entry is a directory -> parameter").apply(pre2, log)
+            cond2 = Rule("Kt", form, "verif_is_dir", why="whether the directory entry is a directory -> parameter").apply(cond2, log)
         if var in cond2 or var in pre2 or "remove_file" in " ".join(pre2):
             raise Undecided("clean_command: the selection uses the directory entry beyond file_name(); predicate not extractable")
         if "verif_entry_name" not in pre2 + cond2:
@@ -129,7 +134,7 @@ class CleanUnit:
         res.samples = [f"pred(name) = {text(cond2)}"]
         bound = f"names of 1..{nbytes} bytes over {{a,m,M,.,~{', space, U+00E9 bytes' if thorough else ''}}}"
         o = Obl(f"C20.filter[{bound}]", ["C20"], fn="c20_filter", engine="kani/cbmc", bounded=bound,
-                desc="the extracted selection condition holds exactly for names whose extension is `mmm` (last dot not first byte, exactly mmm after it)")
+                desc="the extracted selection condition holds exactly for entries that are not directories and whose name has the extension `mmm` (last dot not first byte, exactly mmm after it)")
         r = per.get("c20_filter")
         if r is None or r["status"] is None or r["oom"] or timed_out:
             o.status = "undecided"; o.detail = "no verdict from kani: " + raw[-1500:]
